@@ -83,8 +83,8 @@ func GetRawProtoField(protoBytes []byte, fieldNumber int) ([]byte, error) {
 				}
 				// calculate the new offset
 				offset += lenBytes
-				// extract the field value bytes
-				if offset+int(valueLen) > len(protoBytes) {
+				// extract the field value bytes (compare as uint64: a declared length >= 2^63 must not wrap to a negative int)
+				if valueLen > uint64(len(protoBytes)-offset) {
 					return nil, fmt.Errorf("field value exceeds buffer bounds")
 				}
 				// make buffer to return
